@@ -155,6 +155,26 @@ func (e *Engine) shiftFn(elemSort string) string {
 	return s
 }
 
+// proveQuick asks one solver, synchronously and with a short time limit, whether goal follows from the
+// current path assumptions. Used only to simplify later terms (sound either way).
+func (s *State) proveQuick(goal string) bool {
+	if s.dead {
+		return false
+	}
+	o := &Obligation{Cmds: s.cmds, Goal: goal, Expect: "unsat"}
+	script := s.eng.buildScript(o, "cvc5")
+	f, err := os.CreateTemp("", "quick*.smt2")
+	if err != nil {
+		return false
+	}
+	defer os.Remove(f.Name())
+	f.WriteString(script)
+	f.Close()
+	s.eng.quickQueries++
+	r := runSolver(context.Background(), solverCfg{"z3", func(f string, t int) []string { return []string{"z3", "-t:400", f} }}, f.Name(), 2)
+	return r.answer == "unsat"
+}
+
 type solverResult struct {
 	solver string
 	answer string // unsat sat unknown timeout error
@@ -268,14 +288,11 @@ func (e *Engine) solveOne(i int, o *Obligation, workdir string, timeout int, tho
 		}
 		return
 	}
-	// stage 1: z3-new and cvc5 race
+	// all three solvers race; the first definitive answer wins (thorough: all are heard, disagreement is an error)
 	ctx, cancel := context.WithCancel(context.Background())
 	defer cancel()
 	ch := make(chan solverResult, 3)
-	stage := solvers[:2]
-	if thorough {
-		stage = solvers
-	}
+	stage := solvers
 	for _, c := range stage {
 		go func(c solverCfg) { ch <- runSolver(ctx, c, fileFor(c), timeout) }(c)
 	}
@@ -299,18 +316,6 @@ func (e *Engine) solveOne(i int, o *Obligation, workdir string, timeout int, tho
 		}
 	}
 	cancel()
-	if unsatBy == nil && satBy == nil && !thorough {
-		// stage 2: old z3
-		r := runSolver(context.Background(), solvers[2], fz, timeout)
-		results = append(results, r)
-		rr := r
-		if r.answer == "unsat" {
-			unsatBy = &rr
-		}
-		if r.answer == "sat" {
-			satBy = &rr
-		}
-	}
 	var summary []string
 	for _, r := range results {
 		summary = append(summary, fmt.Sprintf("%s=%s(%.2fs)", r.solver, r.answer, r.secs))
